@@ -7,13 +7,17 @@ from .. import cutfind
 from ..core import call_real
 
 ID = "C08"
-LEAN_MODULE = "CKT.Props.C08Link"
+LEAN_MODULE = "CKT.Props.C08Conv"
 THEOREMS = [
     # T08.4 at specification level (gate cuts): useless cuts can be removed without changing the subcircuits or raising the overhead
     "CKT.C08Spec.conn_prune", "CKT.C08Spec.cost_prune_le", "CKT.C08Spec.prune_no_useless", "CKT.C08Spec.useless_cuts_removable",
     # T08.4 model link (gate cuts): a width-feasible plan without useless cuts is executed step by step by the model (no guard fires), so it is a
     # goal of the search tree with exactly its overhead; with the flag theorem: the reported minimum is at most the overhead of EVERY width-feasible gate-cut plan
-    "CKT.C08Link.plan_step", "CKT.C08Link.plan_path", "CKT.C08Link.plan_reachable", "CKT.C08Link.conn_eq", "CKT.C08Link.optimize_min_over_gate_plans"] + ["CKT.C08." + t for t in [
+    "CKT.C08Link.plan_step", "CKT.C08Link.plan_path", "CKT.C08Link.plan_reachable", "CKT.C08Link.conn_eq", "CKT.C08Link.optimize_min_over_gate_plans",
+    # converse (gate cuts only, Props/C08Conv): every state of the tree is a plan prefix (classes = components of the applied gates, widths = component
+    # sizes, cost = product of the cut gammas); the returned state is a width-feasible plan; flag => the reported overhead IS the minimum over all such plans
+    "CKT.C08Link.child_link", "CKT.C08Link.desc_link", "CKT.C08Link.goal_feasible", "CKT.C08Link.greedy_desc", "CKT.C08Link.optimize_result_is_plan",
+    "CKT.C08Link.optimize_is_minimum"] + ["CKT.C08." + t for t in [
     "desc_cost", "insertKey_sorted", "put1_spec", "put_spec", "lb_of_head", "lb_of_empty", "updMin_fields", "updUb_fields",
     "good_flag_of_popped", "loop_good", "pass_good", "flag_sound", "actCost_ge_one", "child_cost", "cut_mono", "firstMin_spec",
     "passes_inv", "startSearch_good", "optimize_flag_sound",
